@@ -198,3 +198,232 @@ Example C11_doc_not_matches :
   = ROk (EMatches (at_loc (1, 10)) (Some "^b.+")
            (EUnary (at_loc (1, 0)) UNotWord (EStr (at_loc (1, 4)) "foo")) (EStr (at_loc (1, 18)) "^b.+")).
 Proof. vm_compute. split; reflexivity. Qed.
+
+(* ================================================================== 5. TEXT level: lexer composed with parser.
+   Parse/Render.v: `render L toks` spells the printer's tokens (identifiers, numbers, operators incl. the
+   word operators, `not` and `not in`, brackets, quoted strings with the escapes \\ \q \a \b \f \n \r \t \v
+   \xHH) and puts the white-space run `gap L i` chosen by the layout L in front of token i (`inner L i`
+   between the words of `not in`, `dquote L i` chooses the quote character); `parse_text` is parser.Parse on
+   a source text (Lex/Lexer.v `lex`, then `parse`).  The theorems are stated up to node locations
+   (`erase_loc`; the locations of the parsed tree are the positions of the anchor tokens in the text, see
+   C11_lexer_layout), for EVERY unicode oracle (uni_letter/uni_digit/uni_space = unicode.IsLetter/IsDigit/
+   IsSpace on code points >= 128), every float oracle and every formatter. *)
+Require Import X.Lex.Lexer X.Lex.LexProofs X.Parse.Render X.Parse.TextProofs.
+
+(* 5a. the lexer on every layout of spellable tokens (C12_positions extended to `not` and `not in`):
+   kinds, values and the position of the first rune of every token *)
+Theorem C11_lexer_layout : forall (uni_letter uni_digit uni_space : Z -> bool) (items : list (list Z * xtok)) (trail : list Z),
+  layoutx_ok uni_letter uni_digit uni_space items trail = true ->
+  lex uni_letter uni_digit uni_space (layoutx items trail) =
+  LexOk (expectedx (1, 0) items ++ [mkTok (lastpos (1, 0) (1, 0) (layoutx items trail)) TkEOF EmptyString])%list.
+Proof. exact lex_text. Qed.
+Print Assumptions C11_lexer_layout.
+
+(* 5b. the parser never looks at token positions: same outcome class, same tree up to locations *)
+Theorem C11_parser_ignores_positions : forall (g : grammar) (o : oracles) (ts : list token),
+  parse g o (strip ts) = erase_result (parse g o ts).
+Proof. exact parse_strip. Qed.
+Print Assumptions C11_parser_ignores_positions.
+
+(* 5c. EVERY token list that has a spelling, under EVERY good layout (`layout_good`, decidable: white-space
+   runs, non-empty where juxtaposition would change the token list, U+0020 around `not in`): parsing the text
+   = parsing the tokens — accepted with the same tree up to locations, or rejected *)
+Theorem C11_text_tokens : forall (uni_letter uni_digit uni_space : Z -> bool) (g : grammar) (o : oracles) (L : layout) (toks : list token),
+  layout_good uni_letter uni_digit uni_space L toks = true ->
+  erase_result (parse_text uni_letter uni_digit uni_space g o (render uni_letter uni_digit uni_space L toks)) =
+  erase_result (parse g o toks).
+Proof. exact text_tokens. Qed.
+Print Assumptions C11_text_tokens.
+
+Theorem C11_whitespace_irrelevant_tokens : forall (uni_letter uni_digit uni_space : Z -> bool) (g : grammar) (o : oracles) (L1 L2 : layout) (toks : list token),
+  layout_good uni_letter uni_digit uni_space L1 toks = true -> layout_good uni_letter uni_digit uni_space L2 toks = true ->
+  erase_result (parse_text uni_letter uni_digit uni_space g o (render uni_letter uni_digit uni_space L1 toks)) =
+  erase_result (parse_text uni_letter uni_digit uni_space g o (render uni_letter uni_digit uni_space L2 toks)).
+Proof. exact whitespace_irrelevant_tokens. Qed.
+Print Assumptions C11_whitespace_irrelevant_tokens.
+
+(* 5d. the printer's tokens all have a spelling, whatever the parentheses, for every `tree_textable` tree
+   (decidable: names are identifiers of the lexer, the formatters produce number literals, strings are valid
+   UTF-8, operators are operators of the lexer); and `not` is never directly followed by `in` *)
+Theorem C11_printer_tokens_spellable : forall (uni_letter uni_digit uni_space : Z -> bool) (g : grammar)
+    (fmt_int : Z -> string) (fmt_float : PrimFloat.float -> string) (t : expr) (c : poracle),
+  tree_textable uni_letter uni_digit uni_space fmt_int fmt_float t = true ->
+  lexable uni_letter uni_digit uni_space (print_any g fmt_int fmt_float c t) = true /\
+  not_in_free (print_any g fmt_int fmt_float c t) = true.
+Proof. exact textable_tokens. Qed.
+Print Assumptions C11_printer_tokens_spellable.
+
+(* 5e. round trip through the TEXT: print (any redundant parentheses), lay out, lex, parse.
+   Most general layout condition: *)
+Theorem C11_text_roundtrip_good_layout : forall (uni_letter uni_digit uni_space : Z -> bool) (o : oracles)
+    (fmt_int : Z -> string) (fmt_float : PrimFloat.float -> string) (c : poracle) (t : expr) (L : layout),
+  printable gen_grammar fmt_int fmt_float o c t ->
+  layout_good uni_letter uni_digit uni_space L (print_any gen_grammar fmt_int fmt_float c t) = true ->
+  exists t', parse_text uni_letter uni_digit uni_space gen_grammar o
+               (render uni_letter uni_digit uni_space L (print_any gen_grammar fmt_int fmt_float c t)) = ROk t' /\
+             erase_loc t' = erase_loc t.
+Proof. exact (fun ul ud us o fi ff => text_roundtrip ul ud us gen_grammar o fi ff gen_grammar_wf). Qed.
+Print Assumptions C11_text_roundtrip_good_layout.
+
+(* ... and with the simple condition `white L toks`: every run is white space (space, tab, LF, CR, VT, FF),
+   the runs between two tokens are non-empty, and inside / directly after `not in` there is U+0020 *)
+Theorem C11_text_roundtrip : forall (uni_letter uni_digit uni_space : Z -> bool) (o : oracles)
+    (fmt_int : Z -> string) (fmt_float : PrimFloat.float -> string) (c : poracle) (t : expr) (L : layout),
+  printable gen_grammar fmt_int fmt_float o c t ->
+  tree_textable uni_letter uni_digit uni_space fmt_int fmt_float t = true ->
+  white L (print_any gen_grammar fmt_int fmt_float c t) = true ->
+  exists t', parse_text uni_letter uni_digit uni_space gen_grammar o
+               (render uni_letter uni_digit uni_space L (print_any gen_grammar fmt_int fmt_float c t)) = ROk t' /\
+             erase_loc t' = erase_loc t.
+Proof. exact (fun ul ud us o fi ff => text_roundtrip_tree ul ud us gen_grammar o fi ff gen_grammar_wf). Qed.
+Print Assumptions C11_text_roundtrip.
+
+(* white space never changes the tree *)
+Theorem C11_whitespace_irrelevant : forall (uni_letter uni_digit uni_space : Z -> bool) (o : oracles)
+    (fmt_int : Z -> string) (fmt_float : PrimFloat.float -> string) (c : poracle) (t : expr) (L1 L2 : layout),
+  printable gen_grammar fmt_int fmt_float o c t ->
+  tree_textable uni_letter uni_digit uni_space fmt_int fmt_float t = true ->
+  white L1 (print_any gen_grammar fmt_int fmt_float c t) = true ->
+  white L2 (print_any gen_grammar fmt_int fmt_float c t) = true ->
+  exists t1 t2,
+    parse_text uni_letter uni_digit uni_space gen_grammar o
+      (render uni_letter uni_digit uni_space L1 (print_any gen_grammar fmt_int fmt_float c t)) = ROk t1 /\
+    parse_text uni_letter uni_digit uni_space gen_grammar o
+      (render uni_letter uni_digit uni_space L2 (print_any gen_grammar fmt_int fmt_float c t)) = ROk t2 /\
+    erase_loc t1 = erase_loc t2 /\ erase_loc t1 = erase_loc t.
+Proof. exact (fun ul ud us o fi ff => whitespace_irrelevant_tree ul ud us gen_grammar o fi ff gen_grammar_wf). Qed.
+Print Assumptions C11_whitespace_irrelevant.
+
+(* redundant parentheses never change the tree, in the text either (two parenthesis oracles, two layouts) *)
+Theorem C11_redundant_parentheses_text : forall (uni_letter uni_digit uni_space : Z -> bool) (o : oracles)
+    (fmt_int : Z -> string) (fmt_float : PrimFloat.float -> string) (c1 c2 : poracle) (t : expr) (L1 L2 : layout),
+  printable gen_grammar fmt_int fmt_float o c1 t -> printable gen_grammar fmt_int fmt_float o c2 t ->
+  tree_textable uni_letter uni_digit uni_space fmt_int fmt_float t = true ->
+  white L1 (print_any gen_grammar fmt_int fmt_float c1 t) = true ->
+  white L2 (print_any gen_grammar fmt_int fmt_float c2 t) = true ->
+  exists t1 t2,
+    parse_text uni_letter uni_digit uni_space gen_grammar o
+      (render uni_letter uni_digit uni_space L1 (print_any gen_grammar fmt_int fmt_float c1 t)) = ROk t1 /\
+    parse_text uni_letter uni_digit uni_space gen_grammar o
+      (render uni_letter uni_digit uni_space L2 (print_any gen_grammar fmt_int fmt_float c2 t)) = ROk t2 /\
+    erase_loc t1 = erase_loc t2 /\ erase_loc t1 = erase_loc t.
+Proof. exact (fun ul ud us o fi ff => redundant_parentheses_tree ul ud us gen_grammar o fi ff gen_grammar_wf). Qed.
+Print Assumptions C11_redundant_parentheses_text.
+
+(* ---- 6. what is NOT true of the pinned lexer (known finding C11-notin-spacing): with ANY non-empty
+   white-space run inside `not in` (`notin_white`) the statement is false — `1 not<TAB>in [ 1 ]` is rejected;
+   the carve-out `notin_spaced` (decidable, on the layout and the tokens) demands U+0020 only inside `not in`
+   and U+0020 directly after it, and is vacuous for token lists without the operator `not in`. *)
+Definition C11_text_full_statement : Prop := text_full_statement.
+Theorem C11_text_full_statement_refuted : ~ C11_text_full_statement.
+Proof. exact text_full_statement_refuted. Qed.
+Print Assumptions C11_text_full_statement_refuted.
+
+Theorem C11_text_partial : forall (uni_letter uni_digit uni_space : Z -> bool) (o : oracles)
+    (fmt_int : Z -> string) (fmt_float : PrimFloat.float -> string) (c : poracle) (t : expr) (L : layout),
+  let toks := print_any gen_grammar fmt_int fmt_float c t in
+  printable gen_grammar fmt_int fmt_float o c t ->
+  tree_textable uni_letter uni_digit uni_space fmt_int fmt_float t = true ->
+  gaps_ok L 0 toks = true -> notin_spaced L 0 toks = true ->
+  exists t', parse_text uni_letter uni_digit uni_space gen_grammar o (render uni_letter uni_digit uni_space L toks) = ROk t' /\
+             erase_loc t' = erase_loc t.
+Proof. exact text_partial. Qed.
+Print Assumptions C11_text_partial.
+
+Theorem C11_notin_carve_out_vacuous_without_notin : forall (toks : list token) (L : layout) (i : nat),
+  forallb (fun t => negb (is_op_tok "not in" t)) toks = true -> notin_spaced L i toks = true.
+Proof. exact notin_spaced_absent. Qed.
+Print Assumptions C11_notin_carve_out_vacuous_without_notin.
+
+Example C11_notin_tab_rejected :
+  let nf := fun _ : Z => false in
+  let toks := print_min gen_grammar dec (fun _ => "") notin_witness in
+  utf8_encode (render nf nf nf space_layout toks) = "1 not in [ 1 ] " /\
+  render nf nf nf tab_layout toks = [49; 32; 110; 111; 116; 9; 105; 110; 32; 91; 32; 49; 32; 93; 32] /\
+  parse_text nf nf nf gen_grammar notin_oracles (render nf nf nf tab_layout toks) = RErr (1, 2) /\
+  erase_result (parse_text nf nf nf gen_grammar notin_oracles (render nf nf nf space_layout toks)) = ROk (erase_loc notin_witness).
+Proof. vm_compute. repeat split. Qed.
+
+(* ---- non-vacuity: unary, binary, conditional, function and method call, builtin with closure, array, map,
+   a string with escapes (quote, backslash, LF, tab, apostrophe, a two-byte rune, BEL); two layouts, the
+   second with tabs, line breaks (LF and CR LF), single quotes on odd token positions *)
+Definition nf : Z -> bool := fun _ => false.
+Definition s_esc : string :=
+  String "q" (String """" (String "\" (String (ascii_of_nat 10) (String (ascii_of_nat 9) (String "'"
+    (String (ascii_of_nat 195) (String (ascii_of_nat 169) (String (ascii_of_nat 7) "z")))))))).
+
+Definition tx_tree : expr :=
+  ECond A0
+    (EBinary A0 BAndWord
+       (EUnary A0 UNotWord (EBinary A0 BLt (idt "a") (EUnary A0 UMinus (EInt A0 3))))
+       (EBinary A0 BNotIn (EStr A0 s_esc) (EArray A0 [EStr A0 "x"; EFloat A0 ex_float])))
+    (EBuiltin A0 BiFilter [EFunction A0 "f" [idt "xs"; EInt A0 0] false;
+                           EClosure A0 (EBinary A0 BGt (EPointer A0) (EInt A0 10))])
+    (EMap A0 [EPair A0 (EStr A0 "k") (EMethod A0 (idt "u") "m" [ENil A0] false);
+              EPair A0 (EBinary A0 BAdd (idt "p") (idt "q")) (EBool A0 true)]).
+
+Definition tx_parens : poracle :=
+  fun path => match path with [] => 1%nat | [O; O] => 2%nat | [1%nat; 0%nat; 1%nat] => 1%nat | _ => O end.
+
+Definition tx_layout1 : layout := uniform_layout [32] true.
+Definition tx_layout2 : layout :=
+  mkLayout (fun i => match i with
+                     | O => [9]
+                     | 10%nat => [32; 10; 9]
+                     | S _ => nth (Nat.modulo i 4) [[10; 9]; [32; 32]; [13; 10]; [9; 32]] [32]
+                     end)
+           (fun _ => [32; 32; 32]) (fun i => Nat.even i).
+
+Example C11_text_nonvacuous_printable :
+  printable gen_grammar dec ex_fmt_float ex_oracles no_extra tx_tree /\
+  printable gen_grammar dec ex_fmt_float ex_oracles tx_parens tx_tree.
+Proof. split; vm_compute; repeat split; try reflexivity; intros; try discriminate; try congruence. Qed.
+
+Example C11_text_nonvacuous_textable : tree_textable nf nf nf dec ex_fmt_float tx_tree = true.
+Proof. vm_compute. reflexivity. Qed.
+
+Example C11_text_nonvacuous_layouts :
+  white tx_layout1 (print_min gen_grammar dec ex_fmt_float tx_tree) = true /\
+  white tx_layout2 (print_min gen_grammar dec ex_fmt_float tx_tree) = true /\
+  white tx_layout1 (print_any gen_grammar dec ex_fmt_float tx_parens tx_tree) = true.
+Proof. vm_compute. repeat split. Qed.
+
+(* what the first text looks like *)
+Example C11_text_example_text1 :
+  render nf nf nf tx_layout1 (print_min gen_grammar dec ex_fmt_float tx_tree) =
+  rs "not ( a < - 3 ) and ""q\""\\\n\t'" ++ [233] ++ rs "\az"" not in [ ""x"" , 1.5 ] ? filter ( f ( xs , 0 ) , { # > 10 } ) : { ""k"" : u . m ( nil ) , ( p + q ) : true } ".
+Proof. vm_compute. reflexivity. Qed.
+
+(* the theorems applied (not recomputed): two layouts, and two parenthesisations *)
+Example C11_text_example_whitespace :
+  exists t1 t2,
+    parse_text nf nf nf gen_grammar ex_oracles (render nf nf nf tx_layout1 (print_min gen_grammar dec ex_fmt_float tx_tree)) = ROk t1 /\
+    parse_text nf nf nf gen_grammar ex_oracles (render nf nf nf tx_layout2 (print_min gen_grammar dec ex_fmt_float tx_tree)) = ROk t2 /\
+    erase_loc t1 = erase_loc t2 /\ erase_loc t1 = erase_loc tx_tree.
+Proof.
+  exact (C11_whitespace_irrelevant nf nf nf ex_oracles dec ex_fmt_float no_extra tx_tree tx_layout1 tx_layout2
+           (proj1 C11_text_nonvacuous_printable) C11_text_nonvacuous_textable
+           (proj1 C11_text_nonvacuous_layouts) (proj1 (proj2 C11_text_nonvacuous_layouts))).
+Qed.
+
+Example C11_text_example_parentheses :
+  exists t1 t2,
+    parse_text nf nf nf gen_grammar ex_oracles (render nf nf nf tx_layout2 (print_min gen_grammar dec ex_fmt_float tx_tree)) = ROk t1 /\
+    parse_text nf nf nf gen_grammar ex_oracles (render nf nf nf tx_layout1 (print_any gen_grammar dec ex_fmt_float tx_parens tx_tree)) = ROk t2 /\
+    erase_loc t1 = erase_loc t2 /\ erase_loc t1 = erase_loc tx_tree.
+Proof.
+  exact (C11_redundant_parentheses_text nf nf nf ex_oracles dec ex_fmt_float no_extra tx_parens tx_tree tx_layout2 tx_layout1
+           (proj1 C11_text_nonvacuous_printable) (proj2 C11_text_nonvacuous_printable) C11_text_nonvacuous_textable
+           (proj1 (proj2 C11_text_nonvacuous_layouts)) (proj2 (proj2 C11_text_nonvacuous_layouts))).
+Qed.
+
+(* and recomputed on the model: the second layout (tabs, line breaks) gives the tree, with the positions of
+   the anchor tokens as locations *)
+Example C11_text_example_computed :
+  erase_result (parse_text nf nf nf gen_grammar ex_oracles (render nf nf nf tx_layout2 (print_min gen_grammar dec ex_fmt_float tx_tree)))
+    = ROk (erase_loc tx_tree) /\
+  match parse_text nf nf nf gen_grammar ex_oracles (render nf nf nf tx_layout2 (print_min gen_grammar dec ex_fmt_float tx_tree)) with
+  | ROk (ECond _ (EBinary a _ (EUnary u _ _) _) _ _) => (aloc a, aloc u) = ((4, 3), (1, 1))
+  | _ => False
+  end.
+Proof. vm_compute. split; reflexivity. Qed.
